@@ -72,11 +72,10 @@ def _generic_smap(fun, in_axes, out_axes, unroll, *x, _scan=lax.scan, **k):
     )
     _, y = _scan(fun_reord, None, mapped, unroll=unroll)
 
-    if out_axes is None:
-        out_axes, out_axes_td = tree_flatten(out_axes)
-    if isinstance(out_axes, int):
-        out_axes = tree_map(lambda el: out_axes if el is not None else el, y)
-        out_axes, out_axes_td = tree_flatten(out_axes)
+    if _int_or_none(out_axes):
+        # A single int or None applies to every output leaf
+        y_leaves, out_axes_td = tree_flatten(y)
+        out_axes = [out_axes] * len(y_leaves)
     else:
         out_axes, out_axes_td = tree_flatten(out_axes, is_leaf=_int_or_none)
     y, y_td = tree_flatten(y)
@@ -86,7 +85,8 @@ def _generic_smap(fun, in_axes, out_axes, unroll, *x, _scan=lax.scan, **k):
     out = []
     for i, el in zip(out_axes, y):
         if i is None:
-            out.append(unmapped.pop(0))
+            # Un-batched output: every slice along the scanned axis is identical
+            out.append(el[0])
         elif isinstance(i, int):
             out.append(_moveaxis(el, 0, i))
         else:
